@@ -11,7 +11,7 @@ import ScryerModel.Model.AtomProto
    `RR <id> <initCap> <statics> <scripts> <nthreads>`
         round-robin completion (for the free-running mode, where only schedule-independent facts
         are compared).  Result: `done|fuel` ` | ` report.
-   `<statics>`: comma separated hex texts or `-`;  `<scripts>`: threads separated by `|`, texts by
+   `<statics>`: comma separated hex texts or `.` (none);  `<scripts>`: threads separated by `|`, texts by
    `,`, each text hex (`-` = empty text, `.` = empty script).
    Report: `T0=<hex>:<atom>,…;T1=… # cap=<n>,used=<n>,vers=<n>,lock=<0|1>,tbl=<off>:<hex>,…`
    with `<atom>` = `i` (inlined) | `s` (static) | `d<offset>`, results in call order. -/
@@ -41,7 +41,7 @@ def parseScripts (s : String) : Array (List Text) :=
     if th == "." || th == "" then [] else (th.splitOn ",").map hexBytes).toArray
 
 def parseStatics (s : String) : List Text :=
-  if s == "-" || s == "" then [] else (s.splitOn ",").map hexBytes
+  if s == "." || s == "" then [] else (s.splitOn ",").map hexBytes
 
 def pcNum : PC → Nat
   | .idle => 0 | .readInner => 1 | .readTable => 2 | .lookup => 3 | .lock => 4 | .recheck => 5
